@@ -6,6 +6,8 @@ from common import blit
 PROP = "C16"
 PREAMBLE = "From PK Require Import Lib.Bytes Lib.Check Hid.HidModel Hid.HidCheck.\nOpen Scope N_scope.\n"
 COMMANDS = [0x03, 0x10, 0x06, 0x01, 0x11, 0x3F, 0x3B, 0x08, 0x04]
+COQ_TARGETS = ["theories/Hid/HidCheck.vo"]
+HARNESS_BINS = ["hid"]
 COQ_FILES = ["theories/Lib/Bytes.v", "theories/Hid/HidModel.v", "theories/Hid/HidFacts.v", "theories/Props/C16.v"]
 
 
@@ -60,11 +62,11 @@ def check(run):
         raise common.Tie("hygiene gate: " + "; ".join(bad))
     common.coq_build(["theories/Hid/HidCheck.vo"])
     thms, assum = common.props_check(PROP)
-    binary = common.harness_build("release")
+    binary = common.harness_build("hid")
 
     # ---- phase 1: sender
     send_cases = corpus("send") + gen_send_cases(run)
-    send_out = common.harness_run(binary, "hid", send_cases)
+    send_out = common.harness_run(binary, send_cases)
     terms, wires = [], {}
     for c, o in zip(send_cases, send_out):
         if o.get("panic") or o.get("crash"):
@@ -148,7 +150,7 @@ def check(run):
                 p[5:7] = bc.to_bytes(2, "big")
             seq.append(bytes(p))
         mal.append({"op": "recv", "packets": [p.hex() for p in seq]})
-    recv_out = common.harness_run(binary, "hid", recv_in + mal)
+    recv_out = common.harness_run(binary, recv_in + mal)
 
     def outs_term(o):
         if "outs" not in o:
@@ -227,9 +229,9 @@ def corpus(kind):
 
 
 def replay(payload):
-    binary = common.harness_build("release")
+    binary = common.harness_build("hid")
     c = payload["case"]
     if "op" not in c:
         c = {"op": "recv", "packets": c["packets"]}
-    print(json.dumps(common.harness_one(binary, "hid", c))[:2000])
+    print(json.dumps(common.harness_one(binary, c))[:2000])
     return 0
